@@ -423,6 +423,18 @@ pub fn features(schema: &Schema, doc: &Document) -> Features {
                 }
             }
         }
+        // a variant type selected more than once here, where one of its inline fragments consists of
+        // a single fragment spread (the generator aliases the shared variant struct to that fragment)
+        if parent.is_abstract() {
+            for s in sel {
+                if let Selection::Inline { on, sel: inner } = s {
+                    let sole_spread = inner.len() == 1 && matches!(inner[0], Selection::Spread(_));
+                    if sole_spread && variant_types.iter().filter(|t| *t == on).count() >= 2 {
+                        fs.set.insert("double_variant_sole_spread");
+                    }
+                }
+            }
+        }
         // overlap: a key contributed twice to one merged scope (directly or through spreads /
         // variants next to interface-level fields)
         let mut tk = BTreeSet::new();
